@@ -21,11 +21,14 @@ import (
 //	chain         the server's interceptors installed through Chain*Interceptor (two each)
 //	services      decoy services registered next to verif.Svc (same method names, other service names)
 //	serialize     the transport serialises envelopes (flipped if the scenario already does)
+//	demux         client - Demux(by source) - Serve instead of client - Serve
+//	via-proxy, via-rewriting-proxy[-nocallback]  client - Proxy - Demux - Serve; "rewriting": the client dials a
+//	              name that the proxy's address-rewriting callback translates; "nocallback": no disconnect callback
 //
 // It is applied only to scenarios that pass no server / dial options of their own.
 var Config string
 
-var ConfigKinds = []string{"stats", "stats2+interceptors", "chain+stats", "services", "serialize+interceptors", "stats2+chain+services+serialize"}
+var ConfigKinds = []string{"stats", "stats2+interceptors", "chain+stats", "services", "serialize+interceptors", "stats2+chain+services+serialize", "demux", "via-proxy", "via-rewriting-proxy", "via-rewriting-proxy-nocallback+stats", "demux+stats2+chain"}
 
 type passiveSH struct{ n int }
 
@@ -111,6 +114,14 @@ func applyConfig(o DirectOpts, cfg string) (DirectOpts, []string) {
 			services = []string{"verif.Sv", "verif.Svc0", "verif.Svc.Sub", "Svc", "verif"}
 		case "serialize":
 			o.Pipe.Serialize = !o.Pipe.Serialize
+		case "demux":
+			if !o.NoServer && !o.NoClient {
+				o.Demux = true
+			}
+		case "via-proxy", "via-rewriting-proxy", "via-rewriting-proxy-nocallback":
+			if !o.NoServer && !o.NoClient {
+				o.ViaProxy = map[string]string{"via-proxy": "plain", "via-rewriting-proxy": "rewriting", "via-rewriting-proxy-nocallback": "rewriting-nocallback"}[k]
+			}
 		}
 	}
 	return o, services
